@@ -35,7 +35,15 @@ TECHNIQUE = (
     "main() alone), reply latency 0..40 ms; (5) ECUs that do not answer DiagnosticSessionControl at all for some session ids they "
     "do not offer from the session they are in (the request is dropped instead of being answered 0x12/0x7E; ids at the start, in the "
     "middle and at the end of 2..0x7F, from every session / only the default session / only non-default sessions), so that every "
-    "attempt of the probe (max_retries 0, 1, 3) runs into the request timeout on the virtual clock"
+    "attempt of the probe (max_retries 0, 1, 3) runs into the request timeout on the virtual clock; (6) ECUs that append a "
+    "sessionParameterRecord to `50 <session>`: none (gallia's own virtual ECU), the 4 byte P2/P2* record for every session, or a record "
+    "of the ECU's own per session (0..8 bytes, i.e. shorter than, equal to and longer than the timing record); (7) ECUs on which some "
+    "session ids are second names of sessions: `10 y` is carried out as `10 t` (t a real transition from the session the ECU is in) and "
+    "answered `50 t ..` or with a reply cut after `50` - a reply gallia's client refuses (RequestResponseMismatch / MalformedResponse) "
+    "while the session change has taken effect, so the probe loop is used right after an error and still has to make the next probes "
+    "from the session on top of its stack.  The skip list is handed over the way a user writes it: range grammar, decimal / hex, as "
+    "several arguments or as one string with blanks or commas (environment variable, config file), also with overlapping entries (two "
+    "overlapping ranges, a range or an id inside a range given before or after it, an id twice) in any order"
 )
 LEVEL_TEXT = (
     "Exploration: seeded random session graphs (3..14 session ids out of 1..0x7F plus planted chains of length depth+2, cycles, "
@@ -45,7 +53,10 @@ LEVEL_TEXT = (
     "out immediately / 2..450 ms after the positive response (with and without boot silence, reply latency 0.5..40 ms) x ECUs "
     "without / with an idle (S3) session timeout of 0.3..5 s x --sleep 0..3 s (shorter and longer than S3) x cyclic tester present "
     "on (interval < S3) / off x ECUs answering every session change request / silent on some session ids they do not offer "
-    "(lower than, between and higher than the ids offered from that session; from default and non-default stacks; max_retries 0/1/3) x direct main()/full run().  Held = on every generated scan the result equals the reference reachability set, every "
+    "(lower than, between and higher than the ids offered from that session; from default and non-default stacks; max_retries 0/1/3) x "
+    "positive responses without / with a sessionParameterRecord (4 bytes for every session, or 0..8 bytes per session) x ECUs without / "
+    "with alias session ids (session entered, reply refused by the client: other session id echoed, or truncated) x skip lists written "
+    "plainly / with overlapping and repeated entries (arguments or one string) x direct main()/full run().  Held = on every generated scan the result equals the reference reachability set, every "
     "reported stack is a real path, no skipped session was requested and the scan ended within its request budget.  DB-backed "
     "histories: one scan, or a scan followed by a second scan of the same target into the same database with a smaller depth, a skip "
     "list cutting stored paths, a changed graph or thorough flipped; the second scan is judged by ITS depth / skip list / graph, its "
@@ -60,7 +71,8 @@ LEVEL_NOTE = (
 RULE = (
     "cases = (graph edges, refused transitions, hook-armed transitions, depth, skip list, thorough, reset level, ECU offers reset, "
     "unanswered-reset rule and max_retries, delayed-reset rule (delay, reply latency, boot silence), S3 rule (S3 time, tester present on/off "
-    "and interval, reply latency), silent-session-id rule (ids, from which sessions), with_hooks, sleep, run mode, DB-backed or not; each scan of a two-scan history is one case); "
+    "and interval, reply latency), silent-session-id rule (ids, from which sessions), sessionParameterRecord per session, alias session ids and their reply kind, "
+    "spelling of the skip list where entries overlap, with_hooks, sleep, run mode, DB-backed or not; each scan of a two-scan history is one case); "
     "graphs are seeded random digraphs with planted features; non-trivial = some session lies at distance >= 2 from the default "
     "session or a planted feature (cycle off the default session, over-long chain, unreachable component, skip that cuts a path, "
     "refused transition) is present; distinct = distinct case tuples; distinct_traces = distinct ECU-side request/reply logs"
@@ -102,6 +114,18 @@ ASSUMPTIONS = [
     "'identified but could not be activated' AND stored in session_transition with the stack it was refused from (the table has no column "
     "telling such rows from reachable ones); the oracle accepts exactly those rows/list entries, derived from the ECU-side log, and nothing "
     "else beside the reachable set",
+    "what follows `50 <session>` in a positive DiagnosticSessionControl response is the ECU's business (ISO 14229-1:2006 leaves the "
+    "sessionParameterRecord to the manufacturer, :2013 defines 4 bytes; gallia's DiagnosticSessionControlResponse accepts every length): "
+    "the expected result does not depend on the record",
+    "an alias id y (the ECU carries `10 y` out as `10 t` and answers `50 t ..` or a truncated `50`) is not a session: the client has to "
+    "refuse such a reply (C03), y is never reported, and the expected result is the reachable set of the graph exactly as if the ECU had "
+    "answered 0x12 - the probes after it are judged against the session on top of the scanner's stack, not against the session the ECU "
+    "slipped into.  Aliases are only generated for transitions t that are real (not guarded, not hook-armed, not skipped) and offered "
+    "under their own id from the same session, so the reachable set does not depend on them and a session entered through an alias is one "
+    "the scan has to be able to leave anyway (abort rule unchanged).  Not combined with silent session ids.  An ECU that enters a session "
+    "and sends NO reply is not generated (sessions.py leaves open whether the stack is re-entered after a timeout)",
+    "skip lists are written in the grammar gallia.utils.unravel documents ('Ranges are allowed to overlap and are merged'): overlapping or "
+    "repeated entries denote their union, in any order and for both ways of delivery (list of arguments, one string)",
     "DB-backed scans run in real time, hence without --reset and --sleep and on graphs needing at most a few thousand requests; a wall-clock "
     "watchdog of 150 s per history (a scan takes about a second) stands in for the virtual-time deadlock verdict there",
 ]
@@ -167,7 +191,23 @@ def required_reach(tier: str) -> dict[str, int]:
          "silent-dsc.higher-session-entered-after-silence/from-default-stack": 8,
          "silent-dsc.higher-session-entered-after-silence/from-non-default-stack": 8,
          "silent-dsc.reachable-session-only-behind-silent-id": 10, "#silent-dsc.max-retries/": 3, "#silent-dsc.from/": 3,
-         "silent-dsc.id/first-probed": 3, "silent-dsc.id/last-probed": 3, "silent-dsc.thorough": 3, "silent-dsc.with-reset": 3}
+         "silent-dsc.id/first-probed": 3, "silent-dsc.id/last-probed": 3, "silent-dsc.thorough": 3, "silent-dsc.with-reset": 3,
+         # formats of the positive DiagnosticSessionControl response: sessionParameterRecord of 0 / 1-3 / 4 / 5+ bytes
+         "dsc-record.scans": 150, "dsc-record.scans/iso-timing-record-for-every-session": 40, "dsc-record.scans/records-of-the-ecu's-own": 100,
+         "dsc-record.reachable-session-entered/record-length/0": 30, "dsc-record.reachable-session-entered/record-length/1-3": 70,
+         "dsc-record.reachable-session-entered/record-length/4": 80, "dsc-record.reachable-session-entered/record-length/5+": 70,
+         "dsc-record.reachable-session-entered/record-length-other-than-0-and-4/from-non-default-session": 60,
+         # alias session ids: the ECU enters a session, the client refuses the reply, the probe loop goes on after that error
+         "alias.scans": 60, "alias.reply/target-id": 40, "alias.reply/truncated": 20, "alias.session-entered-reply-refused": 50,
+         "alias.session-entered-reply-refused/from-default-stack": 40, "alias.session-entered-reply-refused/from-non-default-stack": 30,
+         "alias.session-entered-reply-refused/reply-target-id": 30, "alias.session-entered-reply-refused/reply-truncated": 15,
+         "alias.higher-id-offered-differently-by-entered-session/without-reset": 30,
+         "alias.higher-id-offered-differently-by-entered-session/without-reset/thorough": 6,
+         # spellings of the skip list: arguments / one string, overlapping and repeated entries in every order
+         "skip.spelling/arguments": 100, "skip.spelling/one-string": 20, "skip.spelling.overlapping-entries": 50,
+         "skip.spelling.overlapping-entries/one-string": 12, "skip.spelling.overlap/same-entry-twice": 40,
+         "skip.spelling.overlap/later-entry-ends-inside-earlier-one": 15, "skip.spelling.overlap/later-entry-ends-inside-earlier-one/starts-below-it": 3,
+         "skip.spelling.overlap/later-entry-starts-inside-earlier-one": 15, "skip.spelling.overlap/later-entry-covers-earlier-one": 20}
     return r
 
 
@@ -366,6 +406,9 @@ def gen_case(rng: Any, tier: str) -> dict[str, Any]:
     case["delayed_reset"] = gen_delayed_reset(case)
     case["s3"] = gen_s3(case)
     case["silent_dsc"] = gen_silent_dsc(case)
+    case["records"] = gen_dsc_records(case)
+    case["alias"] = gen_alias(case)
+    gen_skip_spelling(case)
     # keep the run affordable: a thorough scan searches every walk, a reset costs ~depth+3 requests per probe
     adj = real_adj(case)
     cap = MAX_REQ[tier]
@@ -429,6 +472,138 @@ def gen_s3(case: dict[str, Any]) -> dict[str, Any] | None:
     if tp:
         case["full"] = True
     return {"s3": s3, "tp": tp, "tp_interval": interval, "latency": latency}
+
+
+def _case_seed(tag: str, case: dict[str, Any]) -> str:
+    return tag + repr((sorted(case["edges"].items()), case["depth"], case["skip"], case["thorough"], case["reset"]))
+
+
+ISO_RECORD = "003201f4"  # P2Server_max 50 ms, P2*Server_max 5 s: the 4 byte record of ISO 14229-1:2013
+
+
+def gen_dsc_records(case: dict[str, Any]) -> dict[str, str]:
+    """How the ECU formats its positive DiagnosticSessionControl responses: session -> sessionParameterRecord (hex) sent after
+    `50 <session>`.  None at all (gallia's own virtual ECU), the 4 byte timing record for every session, or a record of the ECU's
+    own per session (0..8 bytes: shorter than, as long as and longer than the timing record; ISO 14229-1:2006 leaves the record to
+    the manufacturer, gallia's response class accepts any length).  Own generator seeded by the case (the main stream is unchanged)."""
+    import random
+
+    r = random.Random(_case_seed("dsc-records", case))
+    style = r.random()
+    if style < 0.45:
+        return {}
+    sessions = sorted({int(k) for k in case["edges"]} | {1})
+    if style < 0.6:
+        return {str(s): ISO_RECORD for s in sessions}
+    out: dict[str, str] = {}
+    for s in sessions:
+        n = r.choice([0, 1, 2, 3, 4, 4, 5, 6, 8])
+        if n:
+            out[str(s)] = r.randbytes(n).hex()
+    return out
+
+
+def gen_alias(case: dict[str, Any]) -> dict[str, Any] | None:
+    """An ECU on which some session ids are second names of sessions: `10 y` does exactly what `10 t` does in the session the ECU
+    is in (where t is a real, unguarded transition from there and y is not offered there), but the positive response is the one
+    for t (`50 t ..`, reply kind 'target-id') or is cut after the response service id (`50`, reply kind 'truncated') - either way a
+    reply gallia's client refuses (RequestResponseMismatch / MalformedResponse, see C03), while the session change has taken effect.
+    y is no session id of the graph, not skipped; placed below an id whose availability differs between a session the scan probes
+    from and the session entered, where there is one.  Own generator seeded by the case (the main stream is unchanged)."""
+    import random
+
+    if case.get("silent_dsc"):
+        return None
+    r = random.Random(_case_seed("alias", case))
+    if r.random() >= 0.3:
+        return None
+    adj, skip = real_adj(case), set(case["skip"])
+    hooked = {(a, b) for a, b in case["hooked"]}
+    known = {int(k) for k in case["edges"]} | {b for _, b, _ in case["guarded"]}
+    free = [x for x in range(2, 0x80) if x not in known and x not in skip]
+    near = sorted(set(level_reach(adj, skip, case["depth"] - 1) if case["depth"] > 1 else ()) | {1})
+    ids: dict[str, int] = {}
+    for _ in range(r.randint(1, 3)):
+        a = r.choice(near)
+        ts = sorted(t for t in adj.get(a, ()) if t != a and t not in skip and (a, t) not in hooked)
+        cand = [x for x in free if str(x) not in ids]
+        if not ts or not cand:
+            continue
+        t = r.choice(ts)
+        diff = sorted(x for x in (adj.get(a, set()) ^ adj.get(t, set())) if x not in skip)
+        below = [x for x in cand if diff and x < diff[-1]]
+        ids[str(r.choice(below or cand))] = t
+    if not ids:
+        return None
+    return {"ids": ids, "reply": r.choice(["target-id", "target-id", "truncated"])}
+
+
+def gen_skip_spelling(case: dict[str, Any]) -> None:
+    """The same skip set written down with overlapping entries (gallia.utils.unravel: 'Ranges are allowed to overlap and are
+    merged'): besides the plain spelling of a run of ids, two ranges that overlap and together cover it, a range or a single id
+    inside it, an id given twice; all entries in random order, as several arguments (CLI) or as ONE string with blanks / commas
+    between the entries (environment variable, config file).  Replaces case["skip_expr"]; the set denoted stays case["skip"].
+    Own generator seeded by the case (the main stream is unchanged)."""
+    import random
+
+    if not case["skip"]:
+        return
+    r = random.Random(_case_seed("skip-spelling", case))
+    overlap, one_string = r.random() < 0.55, r.random() < 0.3
+    if not (overlap or one_string):
+        return
+
+    def f(x: int) -> str:
+        return hex(x) if r.random() < 0.6 else str(x)
+
+    items = [it for arg in case["skip_expr"] for it in arg.split(",")]
+    vs = sorted(set(case["skip"]))
+    extra: list[str] = []
+    i = 0
+    while overlap and i < len(vs):
+        j = i
+        while j + 1 < len(vs) and vs[j + 1] == vs[j] + 1:
+            j += 1
+        lo, hi, k = vs[i], vs[j], r.random()
+        i = j + 1
+        if lo == hi:
+            if k < 0.3:
+                extra.append(f(lo))
+        elif k < 0.45:
+            m1 = r.randint(lo, hi)
+            m2 = r.randint(m1, hi)
+            extra += [f"{f(lo)}-{f(m2)}", f"{f(m1)}-{f(hi)}"]
+        elif k < 0.85:
+            a = r.randint(lo, hi)
+            b = r.randint(a, hi)
+            extra.append(f(a) if a == b else f"{f(a)}-{f(b)}")
+    if not extra and not one_string:
+        return
+    items += extra
+    r.shuffle(items)
+    if one_string:
+        sep = r.choice([" ", " ", ",", "  "])
+        case["skip_expr"] = sep.join(items) if r.random() < 0.6 else "".join(it + r.choice([" ", ","]) for it in items)[:-1]
+        return
+    out: list[str] = []
+    while items:
+        k2 = r.randint(1, len(items))
+        out.append(",".join(items[:k2]))
+        items = items[k2:]
+    case["skip_expr"] = out
+
+
+def skip_entries(expr: Any) -> list[tuple[int, int]]:
+    """(first, last) of every entry of a skip expression in the order written (entries: `a` or `a-b`, decimal or 0x.., separated
+    by commas, blanks or argument boundaries) - read with int(), independent of gallia's parser"""
+    text = expr if isinstance(expr, str) else ",".join(expr)
+    out = []
+    for it in re.split(r"[,\s]+", text.strip()):
+        if not it:
+            continue
+        a, _, b = it.partition("-")
+        out.append((int(a, 0), int(b, 0) if b else int(a, 0)))
+    return out
 
 
 def offered_from(case: dict[str, Any], a: int) -> set[int]:
@@ -527,7 +702,8 @@ async def scan(case: dict[str, Any], budget: int, db: Any = None) -> dict[str, A
     if dr:
         srv.log_sink = tr.log  # the moment a delayed reset is carried out becomes an entry of the ECU-side log
     cap = em.fresh_capture()
-    opts: dict[str, Any] = {"depth": case["depth"], "skip": list(case["skip_expr"]), "thorough": case["thorough"],
+    # the skip list as written down: several arguments (list of strings) or one string (environment variable / config file)
+    opts: dict[str, Any] = {"depth": case["depth"], "skip": case["skip_expr"] if isinstance(case["skip_expr"], str) else list(case["skip_expr"]), "thorough": case["thorough"],
                             "reset": case["reset"], "with_hooks": case["with_hooks"], "sleep": case["sleep"],
                             "max_retries": case["max_retries"]}
     if db is not None:
@@ -550,7 +726,9 @@ def model(case: dict[str, Any], fresh: bool = False) -> Any:
     dr = None if fresh else case.get("delayed_reset")
     s3 = None if fresh else case.get("s3")
     sd = case.get("silent_dsc")
-    srv = (s3_ecu_class() if s3 else delayed_reset_ecu_class() if dr else silent_dsc_ecu_class() if sd else em.GraphECU)(
+    base = s3_ecu_class() if s3 else delayed_reset_ecu_class() if dr else silent_dsc_ecu_class() if sd else em.GraphECU
+    recs, al = case.get("records") or {}, case.get("alias")
+    srv = (quirk_ecu_class(base) if recs or al else base)(
         {int(k): v for k, v in case["edges"].items()}, {(a, b): c for a, b, c in case["guarded"]},
         with_reset=case["ecu_reset"], silent_reset=None if fresh else case["silent_reset"], hooked=case["hooked"])
     if dr:
@@ -559,6 +737,10 @@ def model(case: dict[str, Any], fresh: bool = False) -> Any:
         srv.s3 = float(s3["s3"])
     if sd and not s3 and not dr:
         srv.silent_ids, srv.silent_from = {int(x) for x in sd["ids"]} - {1}, sd["from"]
+    if recs:
+        srv.param_records = {int(k): bytes.fromhex(v) for k, v in recs.items()}
+    if al:
+        srv.alias, srv.alias_reply = {int(k): int(v) for k, v in al["ids"].items()}, al["reply"]
     return srv
 
 
@@ -567,6 +749,47 @@ _latency_cls: Any = None
 _s3_cls: Any = None
 _silent_dsc_cls: Any = None
 _s3_transport_cls: Any = None
+_quirk_cls: dict[Any, Any] = {}
+
+
+def quirk_ecu_class(base: Any) -> Any:
+    """`base` (GraphECU or one of the harness ECUs above) with two manufacturer habits around DiagnosticSessionControl:
+    param_records: session -> sessionParameterRecord appended to the positive response `50 <session>` (any length);
+    alias: session id y -> session t.  In a session from which t is a real transition (in the graph, not guarded, not hook-armed)
+    and y itself is not offered, `10 y` is carried out as `10 t` - the ECU enters t - and answered with the response for t
+    (`50 t <record>`; alias_reply 'target-id') or with a response cut after its first byte (`50`; 'truncated').  Everywhere else
+    y is an id the ECU does not offer (0x12 from gallia's default response chain)."""
+    if base not in _quirk_cls:
+        from gallia.services.uds.core import service
+        from gallia.services.uds.core.constants import UDSIsoServices
+
+        class QuirkECU(base):  # type: ignore[misc,valid-type]
+            param_records: dict[int, bytes] = {}
+            alias: dict[int, int] = {}
+            alias_reply = "target-id"
+            n_alias = 0
+
+            def default_response_if_session_change(self, request: Any) -> Any:
+                r = super().default_response_if_session_change(request)
+                if isinstance(r, service.DiagnosticSessionControlResponse) and self.param_records.get(r.diagnostic_session_type):
+                    r = service.DiagnosticSessionControlResponse(r.diagnostic_session_type, self.param_records[r.diagnostic_session_type])
+                return r
+
+            async def respond(self, request: Any) -> Any:
+                if isinstance(request, service.DiagnosticSessionControlRequest) and request.diagnostic_session_type in self.alias:
+                    cur, y, t = self.state.session, request.diagnostic_session_type, self.alias[request.diagnostic_session_type]
+                    offered = self.supported_services[cur].get(UDSIsoServices.DiagnosticSessionControl) or []
+                    if y not in offered and t in self.edges.get(cur, ()) and (cur, t) not in self.guarded and (cur, t) not in self.hooked:
+                        resp = await super().respond(service.DiagnosticSessionControlRequest(t))
+                        if isinstance(resp, service.DiagnosticSessionControlResponse):
+                            self.n_alias += 1
+                            if self.alias_reply == "truncated":
+                                return service.RawPositiveResponse(resp.pdu[:1])
+                        return resp
+                return await super().respond(request)
+
+        _quirk_cls[base] = QuirkECU
+    return _quirk_cls[base]
 
 
 def delayed_reset_ecu_class() -> Any:
@@ -729,8 +952,9 @@ async def replay_path(case: dict[str, Any], path: list[int]) -> tuple[bool, int]
 
 
 CASE_KEYS = ("edges", "guarded", "depth", "skip", "skip_expr", "thorough", "reset", "ecu_reset", "with_hooks", "sleep", "full",
-             "hooked", "silent_reset", "max_retries", "delayed_reset", "s3", "silent_dsc")
-CASE_DEFAULTS: dict[str, Any] = {"hooked": [], "silent_reset": None, "max_retries": 3, "delayed_reset": None, "s3": None, "silent_dsc": None}  # witnesses written before these existed
+             "hooked", "silent_reset", "max_retries", "delayed_reset", "s3", "silent_dsc", "records", "alias")
+CASE_DEFAULTS: dict[str, Any] = {"hooked": [], "silent_reset": None, "max_retries": 3, "delayed_reset": None, "s3": None, "silent_dsc": None,
+                                 "records": {}, "alias": None}  # witnesses written before these existed
 
 
 def walk_ok(adj: dict[int, set[int]], path: list[Any]) -> bool:
@@ -796,6 +1020,12 @@ def prepare(ctx: Any, case: dict[str, Any], db: bool = False) -> dict[str, Any]:
         + ((("delayed-reset",) + tuple(sorted(delayed.items())),) if delayed else ()) + (("db",) if db else ()) \
         + ((("s3",) + tuple(sorted(s3.items())),) if s3 else ()) \
         + ((("silent-dsc", tuple(sd["ids"]), sd["from"], case["max_retries"]),) if sd else ())
+    recs, al = case.get("records") or {}, case.get("alias")
+    entries = skip_entries(case["skip_expr"])
+    overlapping = any(a2 <= b1 and a1 <= b2 for i, (a1, b1) in enumerate(entries) for a2, b2 in entries[i + 1:])
+    ident += ((("dsc-records",) + tuple(sorted(recs.items())),) if recs else ()) \
+        + ((("alias", tuple(sorted(al["ids"].items())), al["reply"]),) if al else ()) \
+        + ((("skip-spelling", repr(case["skip_expr"])),) if overlapping else ())
     ctx.case(ident, nontrivial=nontrivial)
     ctx.reach("graph.conformant" if conformant else "graph.nonconformant")
     for flag, name in ((case["thorough"], "opt.thorough"), (case["reset"], "opt.reset"), (case["full"], "opt.full-run"),
@@ -834,6 +1064,41 @@ def prepare(ctx: Any, case: dict[str, Any], db: bool = False) -> dict[str, Any]:
             if t != 1 and srcs and all(any(is_silent(case, a, y) for y in range(2, t) if y not in skip) for a in srcs):
                 ctx.reach("silent-dsc.reachable-session-only-behind-silent-id")
                 break
+    if recs:
+        ctx.reach("dsc-record.scans")
+        ctx.reach("dsc-record.scans/" + ("iso-timing-record-for-every-session" if set(recs.values()) == {ISO_RECORD} and len(recs) == len(all_sessions | {1})
+                                         else "records-of-the-ecu's-own"))
+    if al:
+        ctx.reach("alias.scans")
+        ctx.reach(f"alias.reply/{al['reply']}")
+    if skip:
+        # the spelling of the skip list (reference: the generated set; entries read with int())
+        if {x for a, b in entries for x in range(a, b + 1)} != skip:
+            raise AssertionError(f"harness: skip expression {case['skip_expr']!r} does not denote {sorted(skip)}")
+        ctx.reach("skip.spelling/one-string" if isinstance(case["skip_expr"], str) else "skip.spelling/arguments")
+        if overlapping:
+            ctx.reach("skip.spelling.overlapping-entries")
+            if isinstance(case["skip_expr"], str):
+                ctx.reach("skip.spelling.overlapping-entries/one-string")
+            kinds: set[str] = set()
+            for i, (a1, b1) in enumerate(entries):
+                for a2, b2 in entries[i + 1:]:
+                    if not (a2 <= b1 and a1 <= b2):
+                        continue
+                    if (a1, b1) == (a2, b2):
+                        kinds.add("same-entry-twice")
+                    elif b2 < b1:  # part of the earlier entry lies above the later one
+                        kinds.add("later-entry-ends-inside-earlier-one")
+                        if a2 < a1:
+                            kinds.add("later-entry-ends-inside-earlier-one/starts-below-it")
+                        if any(x in adj.get(s, ()) for x in range(b2 + 1, b1 + 1) for s in within):
+                            kinds.add("later-entry-ends-inside-earlier-one/ecu-offers-a-session-above-it")
+                    elif a2 > a1:
+                        kinds.add("later-entry-starts-inside-earlier-one")
+                    else:
+                        kinds.add("later-entry-covers-earlier-one")
+            for k in sorted(kinds):  # once per scan
+                ctx.reach("skip.spelling.overlap/" + k)
     if s3:
         ctx.reach("s3.scans")
         ctx.reach("s3.tester-present-on.scans" if s3["tp"] else "s3.tester-present-off.scans")
@@ -1056,6 +1321,51 @@ def reach_silent_dsc(ctx: Any, case: dict[str, Any], o: dict[str, Any], log: lis
         ctx.reach(name)
 
 
+def reach_records(ctx: Any, o: dict[str, Any], log: list[Any]) -> None:
+    """ECU-side evidence for the formats of the positive DiagnosticSessionControl response (no verdicts here): the ECU entered a
+    session the scan has to report and said so with a sessionParameterRecord of that length"""
+    seen: set[str] = set()
+    for before, q, r, after in log:
+        if len(q) == 2 and q[0] == 0x10 and r is not None and len(r) >= 2 and r[0] == 0x50 and r[1] == q[1] & 0x7F and r[1] in o["want"]:
+            n = len(r) - 2
+            seen.add("dsc-record.reachable-session-entered/record-length/" + ("0" if n == 0 else "1-3" if n < 4 else "4" if n == 4 else "5+"))
+            if n not in (0, 4) and before != 1:
+                seen.add("dsc-record.reachable-session-entered/record-length-other-than-0-and-4/from-non-default-session")
+    for name in sorted(seen):  # once per scan
+        ctx.reach(name)
+
+
+def alias_events(case: dict[str, Any], log: list[Any]) -> list[tuple[int, int, int, int]]:
+    """(log index, ECU session before, alias id, session entered) of every `10 y` for an alias id y that the ECU carried out"""
+    ids = {int(k): int(v) for k, v in case["alias"]["ids"].items()}
+    out = []
+    for i, (before, q, r, after) in enumerate(log):
+        if len(q) == 2 and q[0] == 0x10 and (q[1] & 0x7F) in ids and r is not None and r[0] == 0x50 and after == ids[q[1] & 0x7F] \
+                and (len(r) < 2 or r[1] != q[1] & 0x7F):
+            out.append((i, before, q[1] & 0x7F, after))
+    return out
+
+
+def reach_alias(ctx: Any, case: dict[str, Any], o: dict[str, Any], log: list[Any]) -> None:
+    """ECU-side evidence for 'session change carried out, reply refused by the client' (no verdicts here): from which kind of
+    stack, and whether what the ECU offers for the ids the scan probes next differs between the session the scanner was in and
+    the one the ECU entered - the situation in which it matters that the scanner goes back to its stack"""
+    adj, skip = o["adj"], o["skip"]
+    seen: set[str] = set()
+    for i, a, y, t in alias_events(case, log):
+        seen.add("alias.session-entered-reply-refused")
+        seen.add("alias.session-entered-reply-refused/" + ("from-default-stack" if a == 1 else "from-non-default-stack"))
+        seen.add("alias.session-entered-reply-refused/reply-" + case["alias"]["reply"])
+        if any(x not in skip and (x in adj.get(a, ())) != (x in adj.get(t, ())) for x in range(y + 1, 0x80)):
+            seen.add("alias.higher-id-offered-differently-by-entered-session")
+            if not case["reset"]:
+                seen.add("alias.higher-id-offered-differently-by-entered-session/without-reset")
+                if o["mode"] == "thorough":
+                    seen.add("alias.higher-id-offered-differently-by-entered-session/without-reset/thorough")
+    for name in sorted(seen):  # once per scan
+        ctx.reach(name)
+
+
 def mechanism(case: dict[str, Any], o: dict[str, Any], log: list[Any]) -> str:
     """ECU-side trace of the two places where the scanner has to re-enter its stack although no probe 'succeeded' in its own
     books; used only to NAME the mechanism in the key of a verdict reached otherwise (wrong set / stack / abort).
@@ -1088,6 +1398,13 @@ def mechanism(case: dict[str, Any], o: dict[str, Any], log: list[Any]) -> str:
             window = later[:1] if not case["reset"] else later[: 2 * (o["depth"] + 2) + 1]
             if nxt_id not in window:
                 out += "/remaining-session-ids-not-probed-after-unanswered-session-change"
+                break
+    if case.get("alias"):
+        # the ECU carried out a session change whose reply the client refused; the next session change request is not the start
+        # of the stack, i.e. the following probe is made from wherever the ECU is now
+        for i, a, _, t in alias_events(case, log):
+            if t != a and i in nxt and log[nxt[i]][1] != b"\x10\x01":
+                out += "/session-entered-reply-refused-then-stack-not-re-entered"
                 break
     if o.get("s3"):
         # the ECU was left without any request for longer than S3 while it was in a non-default session (and fell back to the
@@ -1138,6 +1455,10 @@ def judge(ctx: Any, case: dict[str, Any], o: dict[str, Any], out: dict[str, Any]
         reach_s3(ctx, case, o, log)
     if o.get("silent_dsc"):
         reach_silent_dsc(ctx, case, o, log)
+    if case.get("records"):
+        reach_records(ctx, o, log)
+    if case.get("alias"):
+        reach_alias(ctx, case, o, log)
 
     mx = mechanism(case, o, log)
 
@@ -1324,7 +1645,7 @@ def judge(ctx: Any, case: dict[str, Any], o: dict[str, Any], out: dict[str, Any]
 
 # ---- DB-backed scans and two-scan histories (real event loop) -------------------------------------------------------
 DB_TIMEOUT = 0.2  # UDS timeout of DB-backed scans (real seconds; the ECU model answers every request of a session scan at once)
-DB_WALL = 150.0  # real-time watchdog for one history; a DB-backed scan takes about a second
+DB_WALL = 120.0  # real-time watchdog for one history; a DB-backed scan takes about a second
 DB_MAX_REQ = {"quick": 2600, "thorough": 6000}
 _db_seq = 0
 
@@ -1418,6 +1739,10 @@ def gen_history(rng: Any, tier: str) -> dict[str, Any]:
         c2["full"] = rng.random() < 0.25
         if not kinds:
             kinds.append("repeat")
+        if c2.get("alias"):
+            # the second scan's skip list is its own: alias ids stand for sessions that are not skipped (see gen_alias)
+            ids = {y: t for y, t in c2["alias"]["ids"].items() if t not in c2["skip"]}
+            c2["alias"] = {"ids": ids, "reply": c2["alias"]["reply"]} if ids else None
         fit_db(c2, tier)
         scans.append(c2)
     return {"scans": scans, "kinds": kinds}
@@ -1428,6 +1753,11 @@ def pinned_history(part: int, i: int) -> dict[str, Any]:
     c1 = pinned_case(3, 0)
     c2 = pinned_case(3, 0)
     c1["full"] = part % 2 == 1
+    for c in (c1, c2):
+        if part % 4 == 1:  # every session answers with a parameter record of its own length (1..7 bytes)
+            c["records"] = {str(s): bytes(range(1 + s % 7)).hex() for s in (int(k) for k in c["edges"])}
+        elif part % 4 == 3:  # 0x10 is a second name of session 60 (offered from session 2), answered `50 3c`
+            c["alias"] = {"ids": {"16": 60}, "reply": "target-id" if i == 0 else "truncated"}
     if part % 4 == 2:  # the first two session changes of the chain need the OEM hook; the second scan runs with or without hooks
         for c in (c1, c2):
             c["hooked"], c["with_hooks"] = [[1, 2], [2, 3]], True
@@ -1483,9 +1813,18 @@ def check_history(ctx: Any, hist: dict[str, Any]) -> None:
     em.remove_db(path)
     try:
         try:
-            outs = em.run_real(run_history(path, cases, [o["budget"] for o in os_]), DB_WALL)
+            try:
+                outs = em.run_real(run_history(path, cases, [o["budget"] for o in os_]), DB_WALL)
+            except TimeoutError:
+                # a real-time watchdog on a loaded machine proves nothing by firing once: the history is repeated, only a repeated stall is reported
+                ctx.reach("db.history-repeated-after-watchdog")
+                from vf import dbharness as dh
+
+                dh.stop_leaked_connections()
+                em.remove_db(path)
+                outs = em.run_real(run_history(path, cases, [o["budget"] for o in os_]), DB_WALL)
         except TimeoutError:
-            ctx.violation("sessions/db/no-termination/wall-clock", f"a DB-backed history of {len(cases)} scan(s) (about a second each) did not finish within {DB_WALL:.0f} s", os_[0]["w"])
+            ctx.violation("sessions/db/no-termination/wall-clock", f"a DB-backed history of {len(cases)} scan(s) (about a second each) did not finish within {DB_WALL:.0f} s, twice", os_[0]["w"])
             return
         all_rows = em.read_session_transitions(path)
     finally:
@@ -1561,8 +1900,16 @@ def pinned_case(depth: int, part: int) -> dict[str, Any]:
         edges[s].add(1)
     case = {"edges": {str(k): sorted(v) for k, v in sorted(edges.items())}, "guarded": [], "depth": depth, "skip": [], "skip_expr": [],
             "thorough": part % 4 == 1 and depth <= 4, "reset": 1 if part % 4 == 2 else None, "ecu_reset": True, "with_hooks": False, "sleep": 0,
-            "full": part % 4 == 3, "feats": ["pinned"], "hooked": [], "silent_reset": None, "max_retries": 3, "delayed_reset": None, "s3": None, "silent_dsc": None}
+            "full": part % 4 == 3, "feats": ["pinned"], "hooked": [], "silent_reset": None, "max_retries": 3, "delayed_reset": None, "s3": None, "silent_dsc": None,
+            "records": {}, "alias": None}
     v = part % 16
+    if v == 1:  # 0x10 is a second name of session 2 (answered `50 02 ..`); every session has a parameter record of its own length (0..7 bytes)
+        case["alias"] = {"ids": {"16": 2}, "reply": "target-id"}
+        case["records"] = {str(s): bytes(range((s + depth) % 8)).hex() for s in edges if (s + depth) % 8}
+    elif v == 3:  # ... answered with a truncated reply; ids the ECU does not know skipped, written as overlapping entries, the later ones inside the first
+        case["alias"] = {"ids": {"16": 2}, "reply": "truncated"}
+        case["skip"] = list(range(0x46, 0x60))
+        case["skip_expr"] = "0x50-0x5f 70-0x55 0x58" if depth % 2 else ["0x50-0x5f,70-0x55", "0x58"]
     if v in (9, 11):  # the ECU drops '10 03', '10 1e', '10 7f' where it does not offer them (9: everywhere, thorough; 11: outside the default session, full run)
         case["silent_dsc"] = {"ids": [3, 30, 0x7F], "from": "all" if v == 9 else "non-default"}
         case["max_retries"] = 1 if v == 9 else 0
